@@ -69,7 +69,6 @@ MUTANTS = [
     ('C07', 'supp/project.py', r"raise ImportError\('Not a package", "raise ValueError('Not a package", 'C07-R4'),
     ('C07', 'supp/project.py', r"            for s in SUFFIXES:\n                fname = mpath \+ s\n                if os\.path\.exists\(fname\):\n                    filename = fname\n                    is_source = s in SOURCE_SUFFIXES\n                    break\n            else:\n                fname = os\.path\.join\(mpath, '__init__\.py'\)\n                if os\.path\.exists\(fname\):\n                    filename = fname\n                    is_source = True\n                    break",
      "            fname = os.path.join(mpath, '__init__.py')\n            if os.path.exists(fname):\n                filename = fname\n                is_source = True\n                break\n            for s in SUFFIXES:\n                fname = mpath + s\n                if os.path.exists(fname):\n                    filename = fname\n                    is_source = s in SOURCE_SUFFIXES\n                    break", 'C07-R2'),
-    ('C07', 'supp/project.py', r"        path = self\.get_path\(\)\n\n        if root:", "        path = sys.path + self.sources\n\n        if root:", 'C07-R1'),
     # ---- C08
     ('C08', 'supp/assistant.py', r"    try:\n        root = project\.norm_package\(root, filename\)\n    except ImportError:\n        return \[\]\n", "    root = project.norm_package(root, filename)\n", 'C08-R1'),
     ('C08', 'supp/name.py', r"(self\.value\(\)\)\n            except )Exception:", r"\1TypeError:", 'C08-R1'),
@@ -113,7 +112,6 @@ MUTANTS = [
     ('C13', 'supp/nast.py', r"body_start\.add_name\(AssignedName\(name\.id, np\(node\.body\[0\]\), np\(name\), node\.iter\)\)", "body_start.add_name(AssignedName(name.id, (node.lineno + 1, 0), np(name), node.iter))", 'C13-R1'),
     ('C13', 'supp/scope.py', r"self\.location = np\(node\.body\[0\]\)", "self.location = (np(node)[0] + 1, np(node)[1] + 4)", 'C13-R1'),
     ('C13', 'supp/util.py', r"return self\.location < other\.location", "return self.location[0] < other.location[0]", 'C13-R2'),
-    ('C13', 'supp/util.py', r"self\.last_loc = node\.lineno, node\.col_offset \+ 1\n        self\.visit\(node\)", "self.last_loc = node.lineno + 1, 0\n        self.visit(node)", 'C13-R1'),
     ('C13', 'supp/linter.py', r"message = 'Unused name: \{\}'", "message = 'Unused name: {} (line ' + str(name.declared_at[0]) + ')'", 'C13-R'),
     ('C13', 'supp/scope.py', r"return body\[0\]\.decorator_list\[0\]\.lineno, body\[0\]\.col_offset", "return body[0].decorator_list[0].lineno, body[0].decorator_list[0].col_offset - 1", 'C13-R1'),
     # ---- C14
@@ -171,6 +169,8 @@ TWINS = [
     (['C17'], 'supp/name.py', r"sorted\(set\(allnames\), key=lambda n: n\.location\)", "sorted(set(allnames))"),
     (['C06'], 'supp/name.py', r"        attrs = \{\}\n        for b in reversed\(self\.bases\):\n            attrs\.update\(b\._attrs\)\n        attrs\.update\(self\._cls_attrs\)\n        return attrs",
      "        attrs = dict(self._cls_attrs)\n        for b in self.bases:\n            for k, v in b._attrs.items():\n                attrs.setdefault(k, v)\n        return attrs"),
+    (['C07'], 'supp/project.py', r"        path = self\.get_path\(\)\n\n        if root:", "        path = sys.path + self.sources\n\n        if root:"),
+    (['C13', 'C03'], 'supp/util.py', r"self\.last_loc = node\.lineno, node\.col_offset \+ 1\n        self\.visit\(node\)", "self.last_loc = node.lineno + 1, 0\n        self.visit(node)"),
     (['C13', 'C11'], 'supp/util.py', r"    return node\.lineno, node\.col_offset\n\n\nSOURCE_MARK", "    return (node.lineno, node.col_offset)\n\n\nSOURCE_MARK"),
 ]
 
@@ -265,6 +265,58 @@ def one_seed(slug):
         shutil.rmtree(d, ignore_errors=True)
 
 
+FILE_PROPS = {
+    'supp/linter.py': ['C01', 'C02', 'C08', 'C10', 'C11', 'C13'],
+    'supp/assistant.py': ['C01', 'C06', 'C08', 'C11', 'C12', 'C17'],
+    'supp/evaluator.py': ['C02', 'C04', 'C06', 'C08', 'C17'],
+    'supp/name.py': ['C02', 'C04', 'C06', 'C08', 'C09', 'C10', 'C17'],
+    'supp/scope.py': ['C01', 'C02', 'C03', 'C04', 'C05', 'C06', 'C08', 'C10', 'C11', 'C13'],
+    'supp/nast.py': ['C01', 'C02', 'C03', 'C05', 'C08', 'C10', 'C11', 'C13'],
+    'supp/project.py': ['C04', 'C07', 'C09'],
+    'supp/module.py': ['C04', 'C07', 'C09'],
+    'supp/server.py': ['C15', 'C16'],
+    'supp/remote.py': ['C15', 'C16'],
+    'supp/umsgpack.py': ['C14'],
+    'supp/util.py': ['C03', 'C07', 'C11', 'C12', 'C13'],
+    'supp/merged_dict.py': ['C01', 'C12'],
+}
+
+
+def twin_dirs():
+    """twins/<name>/patch.diff: behaviour-preserving refactorings written by independent agents; -> [(name, props)]"""
+    out = []
+    tdir = os.path.join(VERIF, 'twins')
+    if not os.path.isdir(tdir):
+        return out
+    for name in sorted(os.listdir(tdir)):
+        pf = os.path.join(tdir, name, 'patch.diff')
+        if not os.path.exists(pf):
+            continue
+        props = set()
+        for line in open(pf):
+            if line.startswith('+++ b/'):
+                props.update(FILE_PROPS.get(line[6:].strip(), []))
+        out.append((name, sorted(props)))
+    return out
+
+
+def one_twin_diff(name, prop):
+    d = tempfile.mkdtemp(prefix='sa-selftest-')
+    label = (prop, 'twins/' + name, 'patch.diff')
+    try:
+        _copy(d)
+        p = subprocess.run(['patch', '-p1', '-s', '-d', d, '-i', os.path.join(VERIF, 'twins', name, 'patch.diff')],
+                           capture_output=True, text=True)
+        if p.returncode != 0:
+            return ('STALE', name, label, 'patch no longer applies')
+        rc, out = _run(prop, d)
+        if rc == 1:
+            return ('FALSE-ALARM', name, label, out[-600:])
+        return ('QUIET' if rc == 0 else 'UNRECOGNISED', name, label, 'exit %d' % rc)
+    finally:
+        shutil.rmtree(d, ignore_errors=True)
+
+
 def run_for(prop=None, verbose=True):
     """Exit code 0 when every mutant of `prop` (all when None) is killed and no twin raises an alarm."""
     jobs = []
@@ -276,6 +328,10 @@ def run_for(prop=None, verbose=True):
             for p in t[0]:
                 if prop is None or p == prop:
                     jobs.append(ex.submit(one_twin, i, t, p))
+        for name, props in twin_dirs():
+            for p in props:
+                if prop is None or p == prop:
+                    jobs.append(ex.submit(one_twin_diff, name, p))
         sdir = os.path.join(VERIF, 'seeded')
         if os.path.isdir(sdir):
             import json
@@ -289,10 +345,13 @@ def run_for(prop=None, verbose=True):
     bad = [r for r in results if r[0] in ('MISSED', 'FALSE-ALARM', 'BROKEN')]
     stale = [r for r in results if r[0] == 'STALE']
     killed = sum(1 for r in results if r[0] == 'KILLED')
-    quiet = sum(1 for r in results if r[0] in ('QUIET', 'UNRECOGNISED'))
+    quiet = sum(1 for r in results if r[0] == 'QUIET')
+    unrec = [r for r in results if r[0] == 'UNRECOGNISED']
     if verbose:
-        print('selftest %s: %d mutants killed, %d twins quiet, %d stale, %d failures'
-              % (prop or 'all', killed, quiet, len(stale), len(bad)))
+        print('selftest %s: %d mutants killed, %d twins quiet, %d twins not analysable (exit 2), %d stale, %d failures'
+              % (prop or 'all', killed, quiet, len(unrec), len(stale), len(bad)))
+        for r in unrec:
+            print('  NOT-ANALYSABLE %s %s' % (r[2][0], r[2][1]))
         for r in stale:
             print('  STALE %s %s: %s' % (r[2][0], r[2][1], r[2][2][:60]))
         for r in bad:
